@@ -33,7 +33,7 @@ var rawFuncs = map[string]struct {
 	"rv_deepnan": {"rv_deepnan", SBool},
 	"rvkind":     {"rvkind", SInt}, "tconvertible": {"tconvertible", SBool},
 	"tnumout": {"tnumout", SInt}, "tout": {"tout", SInt}, "tmethod": {"tmethod", SBool}, "tfield": {"tfield", SBool},
-	"texported": {"texported", SBool}, "tnumfield": {"tnumfield", SInt}, "spellsint": {"spellsint", SBool}, "parseint": {"parseint", SInt}, "spellsflt": {"spellsflt", SBool}, "parseflt": {"parseflt", SFlt}, "tviaptr": {"tviaptr", SBool},
+	"texported": {"texported", SBool}, "tnumfield": {"tnumfield", SInt}, "fprinted": {"fprinted", SStr}, "spellsint": {"spellsint", SBool}, "parseint": {"parseint", SInt}, "spellsflt": {"spellsflt", SBool}, "parseflt": {"parseflt", SFlt}, "tviaptr": {"tviaptr", SBool},
 	"vcomparable": {"vcomparable", SBool}, "tdeepcmp": {"tdeepcmp", SBool},
 }
 
